@@ -1,9 +1,34 @@
 import XlVerif.Drv.EvalWire
-/-! Driver for C04 (stub with the shared `eval` request; the C04 builder extends it).
-  `C04 eval <fuel> <cells> <ranges> <names> <addr>` → `impl=<result>  fresh=<result>  trace=<addr,…>`
+import XlVerif.Model.C04
+import XlVerif.Spec.C04
+/-! Driver for C04.
+  `C04 eval <fuel> <cells> <ranges> <names> <addr>` → `impl=<result>  fresh=<result>  spec=<result>  trace=<addr,…>`
+  `C04 hist <fuel> <cells> <ranges> <names> <ops>`  → `steps=<step>|<step>|…`
+  `C04 hists <fuel> <cells> <ranges> <names> <ops>#<ops>#…` → `steps=<steps>#<steps>#…` (same initial workbook)
+      ops   : `s~<addr or name>~<value>` | `e~<addr or name>` | `g~<addr or name>`  joined by `|`
+      steps : `s` | `e~<impl result>~<stored value after>~<spec result>` | `g~<value>`
+    `impl` is the state machine `Model.C04.step` (the mutable model with all write-backs), `spec` is
+    `Spec.C04.value` on a workbook that only saw the `set` calls.
 -/
 namespace XlVerif.Drv.C04
-open XlVerif XlVerif.Model.Evaluator XlVerif.Drv.EvalWire
+open XlVerif XlVerif.Model.Evaluator XlVerif.Model.C04 XlVerif.Drv.EvalWire
+
+def opOfWire? (w : String) : Option Op :=
+  match w.splitOn "~" with
+  | ["s", a, v] => do pure (.set (← parseText? a) (← V.ofWire? v))
+  | ["e", a] => do pure (.eval (← parseText? a))
+  | ["g", a] => do pure (.get (← parseText? a))
+  | _ => none
+
+/-- run the history on the model (`m`) and on the reference inputs (`inp`) side by side -/
+def runHist (fuel : Nat) : MState → MState → List Op → List String
+  | _, _, [] => []
+  | m, inp, .set a v :: rest => "s" :: runHist fuel (step stdSem fuel m (.set a v)).1 (Spec.C04.setInput inp a v) rest
+  | m, inp, .eval a :: rest =>
+    let out := evaluate stdSem fuel m a
+    let spec := Spec.C04.value Gen.maxEmpty stdSem fuel inp a
+    s!"e~{resW out.2.1}~{(out.1.getCellValue a).wire}~{resW spec}" :: runHist fuel out.1 inp rest
+  | m, inp, .get a :: rest => s!"g~{(m.getCellValue a).wire}" :: runHist fuel m inp rest
 
 def handle (fields : List String) : String :=
   match fields with
@@ -12,7 +37,19 @@ def handle (fields : List String) : String :=
      | some n, some m, some a =>
        let (_, r, tr) := evaluate stdSem n m a
        kv [("impl", resW r), ("fresh", resW (fresh stdSem n (erase m) a)),
+           ("spec", resW (Spec.C04.value Gen.maxEmpty stdSem n m a)),
            ("trace", ",".intercalate (tr.map textWire))]
+     | _, _, _ => "error=bad-args")
+  | ["hists", fuel, cells, ranges, names, hs] =>
+    -- several histories on the same initial workbook, separated by `#`
+    (match fuel.toNat?, modelOfWire? cells ranges names,
+        (hs.splitOn "#").mapM (fun ops => (splitNE ops "|").mapM opOfWire?) with
+     | some n, some m, some hists =>
+       kv [("steps", "#".intercalate (hists.map fun h => "|".intercalate (runHist n m m h)))]
+     | _, _, _ => "error=bad-args")
+  | ["hist", fuel, cells, ranges, names, ops] =>
+    (match fuel.toNat?, modelOfWire? cells ranges names, (splitNE ops "|").mapM opOfWire? with
+     | some n, some m, some h => kv [("steps", "|".intercalate (runHist n m m h))]
      | _, _, _ => "error=bad-args")
   | _ => "error=bad-request"
 end XlVerif.Drv.C04
